@@ -111,6 +111,15 @@ var mutOps = []mutOp{
 	{"C16", "C16.R3", "token/token.go", `\tinterning\[\*t\] = t\n`, "\tif len(interning) > 1<<16 {\n\t\tResetInterning()\n\t}\n\tinterning[*t] = t\n", "interning table reset while lexing"},
 	{"C18", "C18.R4", "eval/eval_api.go", `func \(s \*State\) SaveGlobals\(w io\.Writer\) \(int, error\) \{\n\treturn s\.env\.SaveGlobals\(w, s\.MaxValueLen\)`, "func (s *State) SaveGlobals(w io.Writer) (n int, err error) {\n\tdefer func() { err = nil }()\n\treturn s.env.SaveGlobals(w, s.MaxValueLen)", "deferred closure masks the write error"},
 	{"C19", "C19.R2", "object/state.go", `\t\t\treturn old\n\t\t\}\n\t\}\n\tif IsExtraFunction`, "\t\t}\n\t}\n\tif IsExtraFunction", "an equal value overwrites the constant again"},
+	{"C01", "C01.R12", "eval/eval.go", `oerr := s\.env\.Set\(name\.Literal\(\), fn\)`, "oerr := s.env.CreateOrSet(name.Literal(), fn, true)", "named function bound as a forced local"},
+	{"C02", "C02.R5", "ast/ast.go", `ps\.last != "\}" && ps\.last != "\]"`, `ps.last != "}" && ps.last != "]" && ps.last != ")"`, "compact separator also dropped after )"},
+	{"C03", "C03.R7", "parser/parser.go", `Statements: \[\]ast\.Node\{p\.parseIfExpression\(\)\}`, "Statements: []ast.Node{p.parseStatement()}", "else-if alternative parsed as a statement"},
+	{"C07", "C07.R16", "object/object.go", `(?s)copy\(m\.kv\[idx:\], m\.kv\[idx\+1:\]\)\s+m\.kv = m\.kv\[:len\(m\.kv\)-1\]`, "m.kv = slices.Delete(m.kv, idx, idx+1)", "deletion zeroes the vacated cell"},
+	{"C08", "C02.R11", "ast/ast.go", `if len\(ie\.Alternative\.Statements\) == 1 && ie\.Alternative\.Statements\[0\]\.Value\(\)\.Type\(\) == token\.IF`, "if first := ie.Alternative.Statements[0]; len(ie.Alternative.Statements) == 1 && first.Value().Type() == token.IF", "else block indexed before its length is known"},
+	{"C10", "C10.R6", "eval/stack.go", `(?s)func \(s \*State\) Error\(err error\) object\.Object \{`, "func (s *State) Error(err error) object.Object {\n\ts.CurrentFile = err.Error()", "the error path writes a State field"},
+	{"C13", "C13.R12", "eval/quote_unquote.go", `(?s)b, ok := node\.\(\*ast\.Builtin\)\s+if !ok \{\s+return false\s+\}\s+return b\.Token == unquoteToken`, "return node.Value() == unquoteToken", "method call on the possibly nil node"},
+	{"C14", "C14.R9", "object/state.go", `(?s)for e\.outer != nil \{\s+e = e\.outer\s+\}\s+keys := make\(\[\]string, 0, len\(e\.store\)\)`, "keys := make([]string, 0, len(e.store))", "SaveGlobals no longer walks to the root"},
+	{"C20", "C20.R6", "trie/trie.go", `return t\.Prefix\(prefix\)\.All\(prefix\)`, "n := t.Prefix(prefix)\n\tif n.IsValid() && n.min >= n.max {\n\t\treturn len(prefix), []string{prefix}\n\t}\n\treturn n.All(prefix)", "PrefixAll fast path for min >= max"},
 	{"C20", "C20.R6", "trie/trie.go", `if t\.leaf \{\n\t\treturn longest, res`, "if t.max == 0 {\n\t\treturn longest, res", "early return on max == 0"},
 }
 
